@@ -195,9 +195,12 @@ func genEnv(rng *Rng) *g4 {
 
 func genPorts(rng *Rng, key string) *g4 {
 	g := &g4{kind: 2}
+	// the secondary merge key (protocol): written on no element (the usual hand-written style), on every element,
+	// or on some
+	mode := rng.Intn(100)
 	for _, p := range pickN(rng, []string{"80", "8080", "443", "53"}, 1+rng.Intn(3)) {
 		e := gM(key, p)
-		if rng.Chance(50) {
+		if mode >= 70 || (mode >= 40 && rng.Chance(50)) {
 			e.set("protocol", gS(rng.Pick([]string{"TCP", "UDP"})))
 		}
 		if rng.Chance(40) {
@@ -209,7 +212,7 @@ func genPorts(rng *Rng, key string) *g4 {
 		g.vals = append(g.vals, e)
 	}
 	// sometimes the same port twice with different protocols (the multi-key case)
-	if rng.Chance(20) && len(g.vals) > 0 {
+	if mode >= 40 && rng.Chance(20) && len(g.vals) > 0 {
 		p := g.vals[0].get(key).text
 		g.vals[0].set("protocol", gS("TCP"))
 		g.vals = append(g.vals, gM(key, p, "protocol", "UDP"))
@@ -1020,6 +1023,20 @@ func genCase04(rng *Rng) (case04, map[string]int, kindSpec) {
 		// Reference comparison: outside its domain are (stated in design.d/C04.md)
 		//  - "$patch: delete" on a map (the reference leaves {} instead of removing the key),
 		//  - "$patch: merge" and a bare list-level "- $patch: delete" (the reference rejects them).
+		c.RefDom = ops["delete-map"] == 0 && ops["merge-directive-map"] == 0 && ops["list-merge-directive"] == 0 &&
+			ops["elem-merge-directive"] == 0 && ops["list-delete-directive"] == 0
+	}
+	// Domain M: as D, but the patch addresses a list with a composite merge key (container ports, Service ports).
+	// The Kubernetes reference merges these lists by their first key alone, so the comparison is made where the first
+	// keys are pairwise different in the target's and in the patch's lists; hygiene and idempotence apply as in D.
+	if c.Domain == "" && pure && uniqueKeyTuples(t) && uniqueKeyTuples(p) && ops["multi-key-list"] > 0 &&
+		uniqueFirstKeys(t) && uniqueFirstKeys(p) && ks.kind != "Foo+embedded" && !nullTarget {
+		c.Domain = "M"
+		if _, conflict := tupleRelationOf(c); conflict {
+			// the patch writes a different protocol for a port the target has: a second element under the composite
+			// key, the same element under the reference's single key -- outside the comparison
+			c.Domain = ""
+		}
 		c.RefDom = ops["delete-map"] == 0 && ops["merge-directive-map"] == 0 && ops["list-merge-directive"] == 0 &&
 			ops["elem-merge-directive"] == 0 && ops["list-delete-directive"] == 0
 	}
